@@ -180,7 +180,7 @@ PROPS = {
         ],
     },
     "C04": {
-        "units": ["jws", "http", "keys", "issue", "acctproto", "texts"],
+        "units": ["jws", "http", "keys", "issue", "acctproto", "texts", "account"],
         "design_ref": "DESIGN.md section 5 C04",
         "technique": "Verus function contracts: JWS structure as a spec predicate over uninterpreted base64url/serialisation/signature relations; nonce and URL binding as preconditions of the transmission",
         "text": "Deductive proof that encode_jwk/encode_kid/encode_kid_mac produce the flattened JWS of RFC 7515 with exactly the header "
